@@ -28,11 +28,11 @@ CLAIMED = {
         note="Trusted: fork = replay of the explicit trace without other passes/clears (construction is deterministic); reference interpreter for the absolute half.",
         tech=TECH + "relational oracle: each pass against its solo replay on the real engine"),
     "C11": dict(cat="exploration", ref="DESIGN.md §6 C11",
-        text="Graphs built from logging user closures (diamonds, k-fold fan-out, self-products, self-average chains up to depth 1024 with 2^1024 paths, operand permutations, re-entrant scripts); history check over the invocation log of each pass: exactly once, after all in-graph consumers, received seed equals the complete adjoint (exact), at most one invocation per reachable node (bounded work).",
-        note="Trusted: the closure log (global sequence numbers), the reference adjoint. Built-in operations' closures are not observable without the hook and are not part of the verdict.",
+        text="Graphs built from logging user closures (diamonds, k-fold fan-out, self-products, self-average chains up to depth 1024 with 2^1024 paths, operand permutations, re-entrant scripts); history check over the invocation log of each pass: exactly once, after all in-graph consumers, received seed equals the complete adjoint (exact), at most one invocation per reachable node (bounded work). Additionally every DAG of up to 3 (thorough: 4) user nodes with arity 1-3 over one leaf is enumerated exhaustively with a pass from every node, and the step-counter hook bounds the node visits of every pass (64 x (nodes+edges) + 4096), which turns an exponential pass into a reported violation instead of a hang.",
+        note="Trusted: the closure log (global sequence numbers), the reference adjoint. The hook (cargo feature corgi_verif, commit 48d91e0) counts node visits of built-in and user nodes alike; its budget is the only verdict that depends on a hook, everything else uses the public API.",
         tech=TECH + "history check over the recorded derivative-invocation log"),
     "C13": dict(cat="exploration", ref="DESIGN.md §6 C13",
-        text="Optimizer updates inside interleaved histories: parameter lists of 1-6 leaves of mixed shapes, which of them hold a gradient is whatever the preceding schedule produced (frozen ones anywhere), repeated updates, stale-handle reuse; oracle: per-parameter step from the pre-update observation, tracked, gradient cleared, frozen untouched, old handles intact.",
+        text="Optimizer updates inside interleaved histories: parameter lists of 1-6 leaves of mixed shapes, which of them hold a gradient is whatever the preceding schedule produced (frozen ones anywhere), repeated updates through fresh and through persistent optimizer objects (shared with training spans), stale-handle reuse; oracle: per-parameter step from the pre-update observation, tracked, gradient cleared, frozen untouched, old handles intact.",
         note="Trusted: the pre-update observation; step tolerance 4 eps (|old|+|lr*g|) so that FMA/reassociation is not flagged.",
         tech=TECH + "per-parameter step oracle from the pre-update observation"),
     "C12": dict(cat="fault_enumeration", ref="DESIGN.md §6 C12, §5.1",
